@@ -296,7 +296,7 @@ def translate_gaussian(tree):
 
 def mask_expr(node, env):
     """(r >= r0)*(r < r1)  |  r < r0  -> Coq Prop-decision as a list of (lhs, op, rhs)"""
-    if isinstance(node, ast.BinOp) and isinstance(node.op, ast.Mult):
+    if isinstance(node, ast.BinOp) and isinstance(node.op, (ast.Mult, ast.BitAnd)):     # boolean arrays: * and & are "and"
         return mask_expr(node.left, env) + mask_expr(node.right, env)
     if isinstance(node, ast.Compare) and len(node.ops) == 1:
         ops = {ast.LtE: '<=', ast.Gt: '>', ast.Lt: '<', ast.GtE: '>='}
